@@ -50,6 +50,10 @@ def cases(tier, seed):
         for mode in (MODES if tier != 'quick' else [MODES[i % 4], MODES[(i + 1) % 4]]):
             out.append({'id': 'segy:%d:%s:%s' % (i, geom, mode), 'kind': 'segy', 'src': src, 'mode': mode, 'reduce_iops': rng.random() < 0.25,
                         'rate': rng.choice([4, 8, 2]), 'cost': 2})
+    # pinned witness of a listed known finding: crossline-sorted regular source
+    out.append({'id': 'witness:crossline-sorted', 'kind': 'segy', 'mode': 'thorough', 'reduce_iops': False, 'rate': 4, 'cost': 1,
+                'src': {'geom': '3d', 'shape': [5, 6, 7], 'il': [1, 1], 'xl': [10, 2], 'dt': 4000, 't0': 0, 'fmt': 5, 'ext': 0, 'cubeseed': 3, 'valkind': 'smooth',
+                        'hdr': {'seed': 9, 'nfields': 2, 'inside': True}, 'sorting': 1}})
     m = 24 if tier == 'quick' else 300
     for i in range(m):
         # dtype / memory layout / key position are cycled deterministically (required strata must not depend on luck)
@@ -141,6 +145,10 @@ def run_segy(case, ctx):
                     if not np.all(H[k] == H[k][0]) and k not in [int(x) for x in r.stored_header_keys]:
                         bad.append({'sig': 'varying-field-not-stored', 'detail': 'field %d varies in the source but is not stored (mode %s)' % (k, mode)})
                         break
+    if case['src'].get('sorting', 2) != 2:
+        strata.add('known:crossline-sorted-source')
+        if bad:
+            bad = [{'sig': 'crossline-sorted-source:header-arrays-in-file-order-on-inline-major-grid', 'detail': '; '.join(sorted(set(v['sig'] for v in bad)))}]
     return {'violations': bad, 'counters': {'headers_compared': compared, 'files': 1, 'required_exact': int(required)}, 'strata': sorted(strata),
             'key': '%s|%s|%s|%s' % (geom, mode, n, sorted(src.get('hdr_classes', {}).values())),
             'nontrivial': n >= 2 and compared > 0}
